@@ -38,7 +38,10 @@ CLAIMS = {
         "fields, any cut into parts with query ids, every writing style — equals the expected response, and unused entries = sent − typed − player fields. GameSpy 2 "
         "(C04_gs2_query, C04_gs2_table, C04_gs2_vars, C04_gs2_unused_exact): 0-255 players and teams, extra columns, 0-row tables. GameSpy 3 (C04_gs3_*): challenge "
         "handshake, splitnum packets in any order, player and team field sections, any allowed field sections the response has no place for at any "
-        "positions (C04_gs3_query_extra, found and repaired a reader defect on the way), query_vars returns exactly the pairs sent. Tie + oracle: SPEC-generated states "
+        "positions (C04_gs3_query_extra, found and repaired a reader defect on the way), value lists CUT at a packet boundary and continued in the next "
+        "packet under field name + offset, for every choice of cut points and any arrival order (C04_gs3_query_cut, C04_gs3_query_cut_points; a packet "
+        "that ends inside a value list is read exactly like the packet with the list closed, C04_gs3_cut_packet_as_closed; joining the packets into one "
+        "buffer would NOT decode them, C04_gs3_cut_joined_buffer_differs), query_vars returns exactly the pairs sent. Tie + oracle: SPEC-generated states "
         "(0-64 players, 0-8 teams, extra variables, optional fields, 1-7 packets/parts) on the real code."),
   note=TB + "text is strict UTF-8 up to the first NUL; `to_lowercase().parse::<bool>()` is modelled as ASCII lower-casing (justified in Proto/GsCommon.lean).",
   technique="Lean 4 proof (decode∘encode per GameSpy version; canonical-map form for the multi-part merge) + SPEC-driven differential"),
@@ -68,8 +71,11 @@ CLAIMS = {
         "every flag at its boundaries, every mode x format) against the model of main; the real writers byte-exact against the model (JSON, pretty JSON, XML) or "
         "through the model's decoders (BSON hex / base64); end to end against loopback servers for Valve and one game of each UDP family x 2 modes x 6 formats, "
         "documents compared with the library's own response, the requests the fake server saw compared with the library's query of that game; invalid "
-        "invocations of each kind. NOT proved: serde's derive output, the serialiser crates succeeding, BSON's binary layout (Python walker), the Debug text, "
-        "the resolver, clap's argv tokenisation, the process."),
+        "invocations of each kind. BSON's binary layout is in the model too (Proto/CliBson.lean, Props/C19_bson.lean): decode(encode v) = the value in the "
+        "BSON types the crate picks for each Rust integer width, every int32 length field equals the bytes it spans, documents / arrays / strings nest "
+        "properly, the encoder fails exactly on a u64 above i64::MAX, a NUL in a key or a non-document at the top; composed with hex / base64: the printed "
+        "text decodes to the value; tie: the real crate on boundary values and the CLI's BSON bytes byte for byte against the model's serialiser. NOT "
+        "proved: serde's derive output (which serialize_* call each field makes), the Debug text, the resolver, clap's argv tokenisation, the process."),
   note=TB + "Known finding: u64 > i64::MAX is not representable in BSON (clean error now). Repaired on the way: XML noncharacters U+FFFE / U+FFFF written literally (40e0891). std's IpAddr parser, hex, base64 and serde_json's formatters are mirrored in Lean and compared with the crates on every run.",
   technique="Lean 4 proof (plan of an invocation as an iff, exit logic, XML converter invariants by mutual induction, codec round trips, JSON print/read inverse) + plan-hook and byte-exact writer differential against the real binary (partial)"),
  "C12": dict(
